@@ -14,6 +14,17 @@ CLAIMED = {
   note="Trusts the reference model checks/c03_model.py (textbook definitions) and CPython's rule that an address is re-issued only after its owner died; terms <=25 nodes.",
   technique="deterministic simulation: simulated allocator (address re-use faults) + heap-machine op schedules + reference-model and finite-model oracles",
   ref="DESIGN.md §4 C03"),
+ 'C12': dict(
+  text=("Seeded deterministic simulation of process histories against the real loader: the disk and its mtime clock "
+        "behind logic/basic.py are an in-memory SimFS; every run starts as a fresh process w.r.t. holpy (holpy is imported "
+        "inside the forked run), then executes <=12 ops - module imports with import-time loads, loads with limits for two "
+        "users, file modifications (items, constant types, imports, cycles), clock jumps, and the faults EIO on open, "
+        "torn file, interrupted item parse, heal. After every load the canonical theory dump must equal a cache-free "
+        "reference loader evaluated on the current files (errors must be reported as errors; after heal the very next "
+        "load must be right). Sampling, not proof."),
+  note="The reference loader re-uses holpy's item parser and Theory.unchecked_extend; unchanged-mtime rewrites and file creation/deletion after the first scan are excluded; big theories only in the thorough tier.",
+  technique="deterministic simulation: in-memory file system + simulated mtime clock + injected I/O faults and interrupted loads, reference-loader oracle, ddmin history shapes",
+  ref="DESIGN.md §4 C12"),
  'C15': dict(
   text=("Seeded deterministic simulation of the solver's decision / propagation / resolution schedule: the order in which "
         "prover/sat.py iterates its sets of variable names is fixed by the world's PYTHONHASHSEED and simulator-chosen names "
@@ -49,7 +60,7 @@ NA = {
  'C19': "numeric value before/after a rule application; input-only; the timer/thread code in integral/slagle.py is not part of the property",
  'C20': "functions of program, annotations and state; input-only",
 }
-PENDING = {k: 'not yet claimed: check under construction in this build (DESIGN.md §4)' for k in ('C07','C12','C13','C14')}
+PENDING = {k: 'not yet claimed: check under construction in this build (DESIGN.md §4)' for k in ('C07','C13','C14')}
 
 def main():
     checks = []
